@@ -12,6 +12,7 @@ import (
 	"github.com/TheManticoreProject/Manticore/network/smb/smb_v10/message"
 	"github.com/TheManticoreProject/Manticore/network/smb/smb_v10/message/commands/andx"
 	"github.com/TheManticoreProject/Manticore/network/smb/smb_v10/message/commands/codes"
+	ci "github.com/TheManticoreProject/Manticore/network/smb/smb_v10/message/commands/command_interface"
 	"github.com/TheManticoreProject/Manticore/network/smb/smb_v10/message/header"
 	"github.com/TheManticoreProject/Manticore/network/smb/smb_v10/message/header/flags"
 	"github.com/TheManticoreProject/Manticore/network/smb/smb_v10/message/header/flags2"
@@ -472,6 +473,18 @@ func dispatchHeaders(code uint8, resp bool) []refHeader {
 }
 
 // framing: message length = 32 + 1 + 2*wc + 2 + bc; repeatable; decodes to the same header/type.
+func firstByteDiff(a, b []byte) int {
+	for i := 0; i < len(a) && i < len(b); i++ {
+		if a[i] != b[i] {
+			return i
+		}
+	}
+	if len(a) < len(b) {
+		return len(a)
+	}
+	return len(b)
+}
+
 func framing(structs []smbgen.Struct) {
 	for _, s := range structs {
 		rels := smbgen.Relations(s.Name)
@@ -485,6 +498,16 @@ func framing(structs []smbgen.Struct) {
 			maxLen := []int{6, 40, 255, 256, 700, 3000, -1}[it%7] // -1: one buffer around or beyond 2^15 bytes
 			c := s.New()
 			smbgen.Fill(c, rels, rng, mode, maxLen)
+			// AndX structures: the link words a peer would have sent (next command, reserved, offset)
+			andxWords := [][3]uint16{{0xFF, 0, 0}, {0xFF, 0, 0x0027}, {0xA2, 0, 0x0040}, {0x2E, 0x5A, 0x8001}, {0x75, 0, 0xFFFF}}[it%5]
+			setAndX := func(c ci.CommandInterface) {
+				if c.IsAndX() && it%5 != 0 {
+					x := andx.NewAndX()
+					x.AndXCommand, x.AndXReserved, x.AndXOffset = codes.CommandCode(andxWords[0]), uint8(andxWords[1]), andxWords[2]
+					c.SetAndX(x)
+				}
+			}
+			setAndX(c)
 			smbgen.AlignPads(c, rels)
 			if maxLen < 0 {
 				// steer the data block to the top of the 16-bit byte count
@@ -509,6 +532,18 @@ func framing(structs []smbgen.Struct) {
 			var wire []byte
 			var err error
 			cs := map[string]any{"struct": s.Name, "iter": it, "fields": fmt.Sprintf("%+v", reflect.ValueOf(c).Elem().Interface())}
+			// the command's own encoding, taken from an identical structure before the message sees it
+			var alone []byte
+			{
+				c2 := s.New()
+				smbgen.Fill(c2, rels, r.Rand(fmt.Sprintf("framing|%s|%d", s.Name, it)), mode, maxLen)
+				setAndX(c2)
+				smbgen.AlignPads(c2, rels)
+				var e2 error
+				if p2, _, _ := mon.Guard(func() { alone, e2 = c2.Marshal() }); p2 || e2 != nil {
+					alone = nil
+				}
+			}
 			p, pv, st := mon.Guard(func() {
 				m.AddCommand(c)
 				wire, err = m.Marshal()
@@ -529,6 +564,10 @@ func framing(structs []smbgen.Struct) {
 			cs["wire"] = mon.FullHex(wire)
 			for _, tag := range held.Hold(wire, s.Name) {
 				r.Violation(tag+":held-output-changed", "bytes returned by an earlier Message.Marshal of "+tag+" changed after later calls (output aliases a reused buffer)", cs)
+			}
+			if alone != nil && maxLen >= 0 && len(wire) >= 32 && !bytes.Equal(wire[32:], alone) {
+				r.Eval(1)
+				r.Violation(s.Name+":framing:body-is-not-the-command", fmt.Sprintf("after the 32-byte header the message holds %d bytes that differ from the %d bytes the same %s encodes to on its own (first difference at body offset %d)", len(wire)-32, len(alone), s.Name, firstByteDiff(wire[32:], alone)), cs)
 			}
 			if len(wire) < 35 {
 				r.Violation(s.Name+":framing:short", fmt.Sprintf("message is %d bytes", len(wire)), cs)
